@@ -186,6 +186,9 @@ Cases ==
   \cup { << "sort", len, 1, 2, al >> : len \in { 5, 41, 64 }, al \in { 2, 3 } }
   \cup { << "skalias", v, op >> : v \in { One, Two, Sub(N, One), HalfN, Add(HalfN, One), Mod(FromBytesBE(Rnd32(41)), N), Zero, N }, op \in {1, 2} }
   \cup { << "skraw", v, op, t >> : v \in { Zero, One, Sub(N, One), N, Add(N, One), KMax256 }, op \in {1, 2, 3}, t \in { One, FromNat(5), Sub(N, One) } }
+       \* keys and tweaks just below n that differ from n in one 32-bit / 64-bit limb only (a limb-wise range test that consults the wrong limb)
+  \cup UNION { { << "skraw", Sub(N, Pow2(w)), op, t >> : op \in {1, 2, 3}, t \in { FromNat(5), Sub(N, Pow2(w)) } } : w \in { 32, 64, 96, 128, 192, 224 } }
+  \cup { << "skraw", Sub(Sub(N, Pow2(32)), FromNat(5)), 1, FromNat(5) >> }
   \cup { << "tchkwrap", x, v >> : x \in 1..8, v \in {0, 1} }
   \cup { << "tchkinf", ki, claim, par >> : ki \in { 1, 4, 8 }, claim \in 0..3, par \in {0, 1} }
   \cup { << "tchk", ki, tk, mut >> : ki \in (IF Thorough THEN { 1, 4, 8, 9 } ELSE { 4, 8 }), tk \in (IF Thorough THEN { 1, 2, 3, 4, 5, 8, 13, 19 } ELSE { 1, 3, 4, 5, 8, 19 }), mut \in 0..6 }
